@@ -84,41 +84,24 @@ func successLits(call *Visit) []Lit {
 
 // c04Replace: on the Add flow, a listed path whose descriptor changed has its old entry released (tables and kernel).
 func c04Replace(a *An, tf *tableFacts, addWith *ssa.Function, rule string) {
-	w := a.walk(addWith)
-	adds := syscallVisits(a, w, "InotifyAddWatch")
-	if len(adds) != 1 {
+	af := addFlow(a, tf, addWith)
+	if af == nil {
 		return
 	}
-	kctx := adds[0].Ctx
-	wdF, _ := tf.watchFields()
-	wdPath := kctx.path(adds[0].Instr.(*ssa.Call)) + "#0"
-	// the callback's parameter of type *watch: the entry currently listed under the path
-	var existing *ssa.Parameter
-	for _, p := range kctx.Fn.Params {
-		if pt, ok := p.Type().Underlying().(*types.Pointer); ok && types.Identical(pt.Elem(), tf.watchT) {
-			existing = p
-		}
-	}
-	if existing == nil {
-		a.R.ob(rule, "replace:existing-param", "the registration callback receives the entry currently listed under the path", a.P.pos(kctx.Fn.Pos()), false, "no *watch parameter")
+	w := af.w
+	wdF, pathF := tf.watchFields()
+	if af.ep == "" {
+		a.R.ob(rule, "replace:listed-entry", "the Add flow looks up the entry currently listed under the path", a.P.pos(addWith.Pos()), false, "no lookup wdTable[pathTable[path]] on the Add flow")
 		return
 	}
-	var entry DNF
-	for _, v := range w.Visits {
-		if v.Ctx == kctx {
-			entry = v.Cond
-			break
-		}
-	}
-	ep := kctx.path(existing)
-	T := entry.andLit(Lit{A: &Atom{Kind: AkNil, Subj: ep}, Neg: true})
-	for _, l := range successLits(adds[0]) {
+	ep := af.ep
+	T := af.add.Cond.andLit(Lit{A: &Atom{Kind: AkNil, Subj: ep}, Neg: true})
+	for _, l := range successLits(af.add) {
 		T = T.andLit(l)
 	}
-	T = T.andLit(Lit{A: &Atom{Kind: AkCmp, Subj: ep + "." + wdF, Op: "==", K: wdPath}, Neg: true})
+	T = T.andLit(Lit{A: &Atom{Kind: AkCmp, Subj: ep + "." + wdF, Op: "==", K: af.wdPath}, Neg: true})
 	ops := collectTableOps(a, tf, w)
 	var delWd, delPath, rm DNF
-	_, pathF := tf.watchFields()
 	for _, op := range ops {
 		if op.Kind != "delete" {
 			continue
@@ -152,7 +135,7 @@ func c04Replace(a *An, tf *tableFacts, addWith *ssa.Function, rule string) {
 				wit = "the old watch is kept when " + stripIDs(ctr)
 			}
 		}
-		a.R.ob(rule, "replace:"+strings.Fields(e.name)[0], "re-adding a listed path that now names another file releases the old watch on every path: "+e.name, a.P.instrPos(adds[0].Instr), ok, wit)
+		a.R.ob(rule, "replace:"+strings.Fields(e.name)[0], "re-adding a listed path that now names another file releases the old watch on every path: "+e.name, a.P.instrPos(af.add.Instr), ok, wit)
 	}
 }
 
@@ -234,56 +217,35 @@ func c04FailedAdd(a *An, tf *tableFacts, addWith *ssa.Function) {
 // resultImplies: literal l is nil(call#i) / !nil(call#i) on the result of an inlinable call, and every return of the
 // callee that is compatible with l carries `need` in every conjunct of its (callee-local) reaching condition.
 func resultImplies(l Lit, need func(Lit) bool) bool {
-	if l.A.Kind != AkNil || l.A.V == nil {
+	if l.A.Kind != AkNil || l.A.V == nil || l.A.Ctx == nil {
 		return false
 	}
-	ex, ok := l.A.V.(*ssa.Extract)
-	var call *ssa.Call
-	idx := 0
-	if ok {
-		call, _ = ex.Tuple.(*ssa.Call)
-		idx = ex.Index
-	} else {
-		call, _ = l.A.V.(*ssa.Call)
-	}
-	if call == nil {
+	switch l.A.V.(type) {
+	case *ssa.Extract, *ssa.Call:
+	default:
 		return false
 	}
-	k := l.A.Ctx.calleeCtx(call, &call.Call)
-	if k == nil {
-		return false
-	}
-	conds, err := k.conds()
-	if err != nil {
-		return false
+	edges := valueEdges(l.A.Ctx, l.A.V, dnfTrue())
+	if len(edges) == 1 && edges[0].V == l.A.V {
+		return false // not expandable
 	}
 	n := 0
-	for _, b := range k.Fn.Blocks {
-		r, ok := b.Instrs[len(b.Instrs)-1].(*ssa.Return)
-		if !ok || idx >= len(r.Results) {
-			continue
-		}
-		d, live := conds[b]
-		if !live || d.isFalse() {
-			continue
-		}
-		rv, _ := k.resolve(r.Results[idx])
-		knownNil := isNilConst(rv)
+	for _, e := range edges {
+		knownNil := isNilConst(e.V)
 		knownNonNil := false
-		switch x := rv.(type) {
+		switch e.V.(type) {
 		case *ssa.Alloc, *ssa.MakeInterface, *ssa.MakeClosure, *ssa.MakeMap, *ssa.MakeSlice:
 			knownNonNil = true
-			_ = x
 		}
-		if l.Neg && knownNil { // l says non-nil: this return is excluded
+		if l.Neg && knownNil { // l says non-nil: this source is excluded
 			continue
 		}
 		if !l.Neg && knownNonNil {
 			continue
 		}
 		n++
-		ok2, _ := d.everyConj(func(c Conj) bool { return c.has(need) })
-		if !ok2 {
+		ok, _ := e.Cond.everyConj(func(c Conj) bool { return c.has(need) })
+		if !ok {
 			return false
 		}
 	}
@@ -361,93 +323,180 @@ func c04RemoveUnlisted(a *An, tf *tableFacts, rm *ssa.Function) {
 	a.R.ob("C04.2", "remove:propagates", "Remove propagates that error to its caller", a.P.pos(rm.Pos()), api, "")
 }
 
-func c04Alias(a *An, tf *tableFacts, addWith *ssa.Function) {
+// addFlowFacts: the syscall, the descriptor it returns, and the entry currently listed under the path.
+type addFlowFacts struct {
+	w       *Walker
+	add     *Visit
+	wdPath  string
+	ep      string // path (as used in atoms) of the listed entry ("existing"), "" if the flow has none
+	stores  []storedEdge
+	succ    func(Lit) bool
+}
+
+type storedEdge struct {
+	e    ValEdge
+	site *Visit
+	kind string // "alias", "fresh", "repointed", "nil", "other"
+}
+
+func addFlow(a *An, tf *tableFacts, addWith *ssa.Function) *addFlowFacts {
 	w := a.walk(addWith)
 	adds := syscallVisits(a, w, "InotifyAddWatch")
 	if len(adds) != 1 {
+		a.R.fail("anchor unresolved: exactly one inotify_add_watch on the Add flow (found %d)", len(adds))
+		return nil
+	}
+	af := &addFlowFacts{w: w, add: adds[0]}
+	af.wdPath = af.add.Ctx.path(af.add.Instr.(*ssa.Call)) + "#0"
+	direct := successOf(af.add)
+	af.succ = func(l Lit) bool { return direct(l) || resultImplies(l, direct) }
+	wdF, _ := tf.watchFields()
+	// the listed entry: a lookup in the wd table keyed by a lookup in the path table; atoms speak about the phi that
+	// merges it with nil (or about the lookup itself)
+	for _, v := range w.Visits {
+		lk, ok := v.Instr.(*ssa.Lookup)
+		if !ok || v.Ctx.fieldOfValue(lk.X) != tf.wdTable {
+			continue
+		}
+		kv, kc := v.Ctx.resolve(lk.Index)
+		var inner *ssa.Lookup
+		switch x := kv.(type) {
+		case *ssa.Lookup:
+			inner = x
+		case *ssa.Extract:
+			inner, _ = x.Tuple.(*ssa.Lookup)
+		}
+		if inner == nil || kc.fieldOfValue(inner.X) != tf.pathTable {
+			continue
+		}
+		var val ssa.Value = lk
+		if refs := lk.Referrers(); refs != nil {
+			for _, r := range *refs {
+				if ex, ok := r.(*ssa.Extract); ok && ex.Index == 0 {
+					val = ex
+				}
+			}
+		}
+		af.ep = v.Ctx.path(val)
+		if refs := val.Referrers(); refs != nil {
+			for _, r := range *refs {
+				if ph, ok := r.(*ssa.Phi); ok {
+					af.ep = v.Ctx.path(ph)
+				}
+			}
+		}
+		break
+	}
+	// what is stored into the wd table on this flow
+	for _, v := range w.Visits {
+		mu, ok := v.Instr.(*ssa.MapUpdate)
+		if !ok || v.Ctx.fieldOfValue(mu.Map) != tf.wdTable {
+			continue
+		}
+		for _, e := range valueEdges(v.Ctx, mu.Value, v.Cond) {
+			se := storedEdge{e: e, site: v, kind: "other"}
+			switch x := e.V.(type) {
+			case *ssa.Const:
+				if isNilConst(x) {
+					se.kind = "nil"
+				}
+			case *ssa.Lookup:
+				if e.Ctx.fieldOfValue(x.X) == tf.wdTable && e.Ctx.path(x.Index) == af.wdPath {
+					se.kind = "alias"
+				}
+			case *ssa.Extract:
+				if lk, isLk := x.Tuple.(*ssa.Lookup); isLk && e.Ctx.fieldOfValue(lk.X) == tf.wdTable && e.Ctx.path(lk.Index) == af.wdPath {
+					se.kind = "alias"
+				}
+			case *ssa.Alloc:
+				if refs := x.Referrers(); refs != nil {
+					for _, rr := range *refs {
+						if fa, isFA := rr.(*ssa.FieldAddr); isFA && fieldName(fa.X.Type(), fa.Field) == wdF {
+							if fr := fa.Referrers(); fr != nil {
+								for _, u := range *fr {
+									if st, isSt := u.(*ssa.Store); isSt && st.Addr == ssa.Value(fa) && e.Ctx.path(st.Val) == af.wdPath {
+										se.kind = "fresh"
+									}
+								}
+							}
+						}
+					}
+				}
+			}
+			if se.kind == "other" {
+				// an existing entry re-pointed: some store E.wd = descriptor on the same value
+				for _, u := range w.Visits {
+					st, isSt := u.Instr.(*ssa.Store)
+					if !isSt {
+						continue
+					}
+					if fa, isFA := st.Addr.(*ssa.FieldAddr); isFA && fieldName(fa.X.Type(), fa.Field) == wdF && a.Ro.StructOf[fieldOf(fa)] == tf.watchT {
+						if u.Ctx.path(st.Val) != af.wdPath {
+							continue
+						}
+						for _, be := range valueEdges(u.Ctx, fa.X, dnfTrue()) {
+							if be.V == e.V {
+								se.kind = "repointed"
+							}
+						}
+					}
+				}
+			}
+			af.stores = append(af.stores, se)
+		}
+	}
+	return af
+}
+
+func c04Alias(a *An, tf *tableFacts, addWith *ssa.Function) {
+	af := addFlow(a, tf, addWith)
+	if af == nil {
 		return
 	}
+	w := af.w
 	_, pathF := tf.watchFields()
-	wdPath := adds[0].Ctx.path(adds[0].Instr.(*ssa.Call)) + "#0"
-	// a return of the wd-table entry found under the new wd
-	found := false
-	for _, v := range w.Visits {
-		r, ok := v.Instr.(*ssa.Return)
-		if !ok || len(r.Results) == 0 || v.Ctx != adds[0].Ctx {
-			continue
-		}
-		rv, rc := v.Ctx.resolve(r.Results[0])
-		var lk *ssa.Lookup
-		if ex, ok := rv.(*ssa.Extract); ok {
-			lk, _ = ex.Tuple.(*ssa.Lookup)
-		} else if l, ok := rv.(*ssa.Lookup); ok {
-			lk = l
-		}
-		if lk == nil || rc.fieldOfValue(lk.X) != tf.wdTable {
-			continue
-		}
-		if rc.path(lk.Index) != wdPath {
-			continue
-		}
-		lp := rc.path(lk)
-		tested, _ := v.Cond.everyConj(func(c Conj) bool {
-			return c.has(func(l Lit) bool { return (l.A.Kind == AkOk && !l.Neg || l.A.Kind == AkNil && l.Neg) && l.A.Subj == lp })
-		})
-		if tested {
-			found = true
+	// the entry found under the new descriptor is what gets (re)stored
+	var aliasCond DNF
+	for _, se := range af.stores {
+		if se.kind == "alias" {
+			aliasCond = aliasCond.or(se.e.Cond)
 		}
 	}
-	a.R.ob("C04.4", "alias:existing-entry-wins", "when the kernel returns a wd that is already in the wd table the registration returns that existing entry (adding an alias changes nothing)",
-		a.P.instrPos(adds[0].Instr), found, "return of wdTable[new wd] under its ok/nil test")
-	// ... and it does so whenever that wd is known: success ∧ ok(wdTable[wd]) => that return
-	kctx := adds[0].Ctx
-	var entry DNF
-	for _, v := range w.Visits {
-		if v.Ctx == kctx {
-			entry = v.Cond
-			break
-		}
-	}
+	a.R.ob("C04.4", "alias:existing-entry-wins", "when the kernel returns a wd that is already in the wd table the registration keeps that existing entry (adding an alias changes nothing)",
+		a.P.instrPos(af.add.Instr), !aliasCond.isFalse(), "the entry looked up under the new descriptor is the value stored for it")
+	// ... and it does so whenever that wd is known: reached the syscall ∧ success ∧ ok(wdTable[wd]) => that entry is the one kept
 	var okLit *Lit
-	var retCond DNF
 	for _, v := range w.Visits {
-		if v.Ctx != kctx {
-			continue
-		}
-		if lk, isLk := v.Instr.(*ssa.Lookup); isLk && v.Ctx.fieldOfValue(lk.X) == tf.wdTable && v.Ctx.path(lk.Index) == wdPath {
-			okLit = &Lit{A: &Atom{Kind: AkOk, Subj: v.Ctx.path(lk), V: lk, Ctx: v.Ctx}}
-		}
-		if r, isRet := v.Instr.(*ssa.Return); isRet && len(r.Results) > 0 {
-			rv, rc := v.Ctx.resolve(r.Results[0])
-			var lk *ssa.Lookup
-			if ex, isEx := rv.(*ssa.Extract); isEx {
-				lk, _ = ex.Tuple.(*ssa.Lookup)
-			} else if l, isL := rv.(*ssa.Lookup); isL {
-				lk = l
-			}
-			if lk != nil && rc.fieldOfValue(lk.X) == tf.wdTable && rc.path(lk.Index) == wdPath {
-				retCond = retCond.or(v.Cond)
+		if lk, isLk := v.Instr.(*ssa.Lookup); isLk && v.Ctx.fieldOfValue(lk.X) == tf.wdTable && v.Ctx.path(lk.Index) == af.wdPath {
+			if lk.CommaOk {
+				okLit = &Lit{A: &Atom{Kind: AkOk, Subj: v.Ctx.path(lk), V: lk, Ctx: v.Ctx}}
+			} else {
+				okLit = &Lit{A: &Atom{Kind: AkNil, Subj: v.Ctx.path(lk), V: lk, Ctx: v.Ctx}, Neg: true}
 			}
 		}
 	}
 	always := false
-	wit := "no comma-ok lookup of the wd table under the new descriptor"
-	if okLit != nil {
-		T := entry.andLit(*okLit)
-		for _, l := range successLits(adds[0]) {
+	wit := "no lookup of the wd table under the new descriptor"
+	if okLit != nil && !aliasCond.isFalse() {
+		T := af.add.Cond.andLit(*okLit)
+		if okLit.A.Kind == AkOk {
+			// the tables never hold nil entries (every stored value is a fresh or existing entry: C12.1)
+			T = T.andLit(Lit{A: &Atom{Kind: AkNil, Subj: okLit.A.Subj}, Neg: true})
+		}
+		for _, l := range successLits(af.add) {
 			T = T.andLit(l)
 		}
-		h, ctr, err := implies(T, retCond)
+		h, ctr, err := implies(T, aliasCond)
 		if err != nil {
 			a.R.fail("%v", err)
 		}
 		always = h
-		wit = "success ∧ ok(wdTable[wd]) => return of that entry"
+		wit = "success ∧ known descriptor => the existing entry is kept"
 		if !h {
 			wit = "a known descriptor does not lead to the existing entry when " + stripIDs(ctr)
 		}
 	}
-	a.R.ob("C04.4", "alias:always", "a descriptor that is already in the wd table always resolves to its existing entry, whatever flags or spelling the new Add used", a.P.instrPos(adds[0].Instr), always, wit)
+	a.R.ob("C04.4", "alias:always", "a descriptor that is already in the wd table always resolves to its existing entry, whatever flags or spelling the new Add used", a.P.instrPos(af.add.Instr), always, wit)
 	// no store to the path field of a non-fresh watch on the Add flow
 	var bad []string
 	for _, v := range w.Visits {
